@@ -422,6 +422,14 @@ def _get_comp_cls_media(comp_cls: Type["Component"]) -> Any:
         if curr_cls in media_cache:
             continue
 
+        # The file paths in `Media` may be relative to the component file. These are resolved together with
+        # the other media-related attributes, when any of those is first accessed. Make sure that has happened
+        # also when `media` is the first one to be accessed, so that we don't memoize the unresolved paths.
+        for mro_cls in curr_cls.__mro__:
+            mro_comp_media: Optional[ComponentMedia] = mro_cls.__dict__.get("_component_media", None)
+            if mro_comp_media is not None and not mro_comp_media.resolved:
+                _resolve_media(mro_cls, mro_comp_media)
+
         # Prepare base classes
         media_input = getattr(curr_cls, "Media", None)
         media_extend = getattr(media_input, "extend", True)
